@@ -27,6 +27,8 @@ func checkC06(c *Ctx) {
 	checkAtomicFill(c)
 	c.rule("OWN-index-cache", "the fast-node cache is changed only by the read-through lookup and by Commit after the write", 3)
 	checkIndexCacheOwner(c, "OWN-index-cache")
+	// the writer's half of the lock-free re-keying protocol: new key saved before the old key is deleted
+	checkRekeyOrder(c)
 	c.rule("ORDER-root-probe", "lock-free root lookup probes the old key before the re-keyed key (mirror of the writer's save-new-then-delete-old)", 2)
 	checkRootProbeOrder(c)
 	scope := func(fn *ssa.Function) bool { return l.pkgPathOf(fn) == l.ModPath }
@@ -648,6 +650,47 @@ func checkCloseOnce(c *Ctx, rule string) {
 			}
 		}
 		c.decide(rule, "Exporter.Close unpins at most once", l.pos(cls.Pos()), okOnce, "decrement only while e.tree != nil, and e.tree is cleared on every path", "a second Close() decrements the reader count again: it releases the pin of another open export of the same version, which can then be deleted")
+	}
+	// Close releases the version that was pinned: the number is captured by the exporter when it pins
+	// (a field of the exporter written only by its constructor), not re-read from the exported tree —
+	// tree.Export() on a MutableTree exports the working tree object, whose version field SaveVersion
+	// overwrites in place before it installs a clone.
+	ne := l.Func("", "newExporter")
+	incr := l.Func("", "*nodeDB.incrVersionReaders")
+	expT := l.NamedType("", "Exporter")
+	if ne == nil || incr == nil || expT == nil {
+		c.anchorMissing(rule, "newExporter / incrVersionReaders / Exporter")
+		return
+	}
+	var pinned ssa.Value
+	for _, in := range callsIn(ne, predStatic(incr)) {
+		pinned = stripTrivial(callCommon(in).Args[1])
+	}
+	for _, d := range decs {
+		arg := stripTrivial(callCommon(d).Args[1])
+		ok, why := false, "the released version is `"+roleOf(l, arg, "", 0)+"`"
+		if ld, isLd := arg.(*ssa.UnOp); isLd && ld.Op == token.MUL {
+			if fa, isFA := ld.X.(*ssa.FieldAddr); isFA {
+				if n := derefNamed(fa.X.Type()); n != nil && n.Obj() == expT.Obj() {
+					f := fieldVar(fa.X.Type(), fa.Field)
+					// written only in the constructor, with the pinned value
+					ok = pinned != nil
+					for _, fn := range l.SrcFuncs {
+						if l.pkgPathOf(fn) != l.ModPath {
+							continue
+						}
+						for _, st := range storesToField(fn, f) {
+							if fn != ne || stripTrivial(st.Val) != pinned {
+								ok = false
+								why = "Exporter." + f.Name() + " is written outside the constructor or with a value other than the pinned one"
+							}
+						}
+					}
+				}
+			}
+		}
+		c.decide(rule, "Exporter.Close releases the version its constructor pinned", l.ipos(d), ok, "version captured in the exporter at creation",
+			why+", re-read at Close time from the exported tree: when the exported tree is the working tree of a MutableTree, SaveVersion changes that number in place, Close releases the pin of the NEW version (possibly another export's) and the exported version stays pinned for ever")
 	}
 }
 
